@@ -176,8 +176,11 @@ func (st *hnState) checkFunc(fn *ssa.Function) {
 			if !ok {
 				continue
 			}
-			if !isReturn(in) && allConstResults(ret) {
-				continue // the synthetic return of the recover block of a function with unnamed results: zero values
+			if !isReturn(in) && (allConstResults(ret) || allResultsUnnamed(sig)) {
+				// the synthetic return of the recover block: zero values, or - results are spilled into cells as soon as
+				// the function defers - what a normal return had stored before a deferred call panicked; that value is
+				// judged at the normal return
+				continue
 			}
 			for i, r := range ret.Results {
 				if !isHostType(sig.Results().At(i).Type()) {
@@ -1031,6 +1034,15 @@ func scanIndexCanonical(fn *ssa.Function, ifi *ssa.If, phi *ssa.Phi, bound ssa.V
 func allConstResults(ret *ssa.Return) bool {
 	for _, r := range ret.Results {
 		if _, ok := r.(*ssa.Const); !ok {
+			return false
+		}
+	}
+	return true
+}
+
+func allResultsUnnamed(sig *types.Signature) bool {
+	for i := 0; i < sig.Results().Len(); i++ {
+		if n := sig.Results().At(i).Name(); n != "" && n != "_" {
 			return false
 		}
 	}
